@@ -143,10 +143,13 @@ func (listener *tcpLineListener) runConnection(connLogger logger.Logger, conn *n
 	defer listener.taskCounter.Done()
 	connLogger.Info("started")
 
+	connAborter := listener.launchConnectionCloser(connLogger, conn)
+	// The connection may only be closed after the sink is closed (deferred calls run in reverse order), because the
+	// client number is the socket's FD, which can be reused by a new connection as soon as the socket is closed.
+	defer connAborter.Signal()
+
 	recvChan := listener.receiver.NewSink(conn.RemoteAddr().String(), clientNumber)
 	defer recvChan.Close()
-
-	connAborter := listener.launchConnectionCloser(connLogger, conn)
 
 	// short timeout for periodic flushing
 	connReader := listener.createConnectionReader(connLogger, conn)
@@ -187,7 +190,7 @@ func (listener *tcpLineListener) runConnection(connLogger logger.Logger, conn *n
 			if !util.IsNetworkClosed(readErr) {
 				connLogger.Warn("read() error: ", readErr)
 			}
-			connAborter.Signal()
+			// the connection is closed by connAborter at the end, after the sink
 		}
 		break
 	}
